@@ -128,7 +128,10 @@ class ExprMixin:
                     try:
                         return self.const_val(ast.literal_eval(ch.value), st)
                     except Exception:
-                        pass
+                        # the name IS bound at module level, but to something the engine does not model (a dict / list
+                        # used as module state, a computed value): a checker limit, never a NameError of the code
+                        raise Unsupported("module-level name %s.%s = %s is not modelled (line %s)"
+                                          % (mod, name, ast.unparse(ch.value)[:40], ch.lineno))
                 if isinstance(ch, (ast.Import, ast.ImportFrom)):
                     for a in ch.names:
                         if (a.asname or a.name.split('.')[0]) == name:
@@ -258,6 +261,15 @@ class ExprMixin:
                 return self.guard(st, z3.Select(h.mem, kz), 'KeyError', 'key', node, get)
         if isinstance(v, VObj) and v.sort == 'Str':
             return k(st, self.uf('str_index', [v, i], T_STR))
+        if isinstance(v, VObj) and v.sort == 'Any' and not self.spec:
+            # an opaque object: the item is an opaque object -- or the lookup raises (nothing is known about the object)
+            self.note('rule', (node.lineno, ast.unparse(node)[:60], 'subscript of an opaque object: an opaque item, or IndexError / KeyError / TypeError'))
+            out = []
+            for exc in ('IndexError', 'KeyError', 'TypeError'):
+                s2 = st.copy()
+                s2.path.append('%s@%s' % (exc, node.lineno))
+                out += self.raise_(s2, exc)
+            return out + k(st, fresh_val(T_ANY, 'item', st))
         raise Unsupported("subscript of %r (line %s)" % (v, node.lineno))
 
     def const_int(self, v):
